@@ -137,6 +137,7 @@ def writes_in_function(repo, inv, q, m, fn, cg=None):
     clsq = getattr(cls, "_qualname", None)
     params_with_default = {p for (fq, p) in inv.defaults if fq == q}
     _aliasing = set()
+    self_alias = {}
     declared_global = set()
     for n in ast.walk(fn):
         if isinstance(n, ast.Global) and enclosing_function(n) is fn:
@@ -174,6 +175,8 @@ def writes_in_function(repo, inv, q, m, fn, cg=None):
         if isinstance(base, ast.Attribute):
             attr = base.attr
             b = base.value
+            if isinstance(b, ast.Name) and b.id in ("self", "cls") and attr in self_alias:
+                return self_alias[attr]
             if isinstance(b, ast.Name) and b.id in ("self", "cls") and clsq:
                 for cq in repo.mro(clsq):
                     if (cq, attr) in inv.alias_attrs:
@@ -211,6 +214,10 @@ def writes_in_function(repo, inv, q, m, fn, cg=None):
                                                         (isinstance(v_.func, ast.Attribute) and v_.func.attr == "copy")))
                         if fresh:
                             return None
+            if isinstance(b, ast.Name) and b.id in locs and b.id not in ("self", "cls") and (cg is None or b.id not in cg.local_types(m, fn)):
+                # <local holding an opcode table>.hasjrel etc.: the table modules' own lists (the local is what get_opcode_module() returned)
+                if any(nm == attr and mn.startswith("xdis.opcodes.") for (mn, nm) in inv.globals):
+                    return "global:xdis.opcodes.*.%s" % attr
             if cg is not None and isinstance(b, ast.Name) and b.id in cg.local_types(m, fn):
                 tq = cg.local_types(m, fn)[b.id]
                 for cq in repo.mro(tq):
@@ -223,6 +230,14 @@ def writes_in_function(repo, inv, q, m, fn, cg=None):
                     return "class:%s.%s" % (sorted(cands)[-1] if len(cands) == 1 else "{%s}" % ",".join(sorted(cands)), attr)
         return None
 
+    # self.X = <shared container> earlier in this function: self.X then *is* that container (self.X += [...] extends it in place)
+    self_alias = {}
+    for n in ast.walk(fn):
+        if isinstance(n, ast.Assign) and len(n.targets) == 1 and isinstance(n.targets[0], ast.Attribute) and isinstance(n.targets[0].value, ast.Name) \
+                and n.targets[0].value.id in ("self", "cls") and isinstance(n.value, (ast.Name, ast.Attribute)):
+            oid_ = resolve(n.value)
+            if oid_:
+                self_alias[n.targets[0].attr] = oid_
     for n in ast.walk(fn):
         if enclosing_function(n) is not fn and not isinstance(n, (ast.FunctionDef,)):
             pass
@@ -415,7 +430,8 @@ def run(rep, tier):
            "def g(k, memo={}):\n    CACHE[k] = 1\n    memo[k] = 2\ndef h(extra):\n    names = NAMES\n    names.update(extra)\n    copy = dict(NAMES)\n    copy.update(extra)\n"
            "def configure(v):\n    K.mode = v\nWIDTH = 20\ndef widen(n):\n    global WIDTH\n    if n > WIDTH:\n        WIDTH = n\n    return WIDTH\n"
            "from functools import lru_cache\n@lru_cache(maxsize=8)\ndef labels(code):\n    out = []\n    out.append(len(code))\n    return out\n"
-           "@lru_cache\ndef width(code):\n    return len(code)\n")
+           "@lru_cache\ndef width(code):\n    return len(code)\n"
+           "class Api:\n    def __init__(self, v):\n        self.names = NAMES\n        self.names.update(v)\n        self.own = dict(NAMES)\n        self.own.update(v)\n")
     cm = Module("ctl", "/dev/null/ctl.py", src)
     fns, clss = {}, {}
     for n in ast.walk(cm.tree):
@@ -445,7 +461,7 @@ def run(rep, tier):
     got = []
     for qn, (m_, fn_) in fns.items():
         got += [o for o, n_, h in writes_in_function(FakeRepo(), cinv, qn, m_, fn_)]
-    if sorted(got) != ["class:ctl.K.table", "classattr:ctl.K.mode", "default:ctl.g(memo)", "global:ctl.CACHE", "global:ctl.NAMES", "globalvar:ctl.WIDTH"]:
+    if sorted(got) != ["class:ctl.K.table", "classattr:ctl.K.mode", "default:ctl.g(memo)", "global:ctl.CACHE", "global:ctl.NAMES", "global:ctl.NAMES", "globalvar:ctl.WIDTH"]:
         raise AnalysisError("positive control failed: %s" % got)
     memo_ctl = {qn: (memoised(FakeRepo(), m_, fn_), mutable_result(fn_)) for qn, (m_, fn_) in fns.items() if memoised(FakeRepo(), m_, fn_)}
     if set(memo_ctl) != {"ctl.labels", "ctl.width"} or not memo_ctl["ctl.labels"][1] or memo_ctl["ctl.width"][1]:
